@@ -16,7 +16,7 @@ from ..core import LEAN, REPO, VERIF
 from ..gen import gen_hashsites
 
 LEVEL = 'translation_validation'
-LEVEL_TEXT = ('Seed independence is a property of the running interpreter, so the decisive step is differential: the same '
+LEVEL_TEXT = ('Seed/history independence is a property of the running interpreter, so the decisive step is differential: the same '
               'inputs are evaluated in fresh processes under different PYTHONHASHSEED values (and cached/uncached, '
               'original/copy) and every listed output must be identical. What a theorem can carry is proved: the table of '
               'all hash() call sites regenerated from the source contains only int / int-tuple / delegating arguments '
@@ -40,7 +40,8 @@ EDGE = ['C[CH]C |^1:1|', '[CH3] |^1:0|', 'C[N](C)[O] |^1:3|', '[O]N=O |^1:0|', '
         'CC(=O)O[Zn]OC(C)=O', 'N[Pt](N)(Cl)Cl', 'C[Mg]Br', 'B1(C)[H]B(C)[H]1', 'C[C@@H](O)[C@@H](C)O', 'C[C@@H](O)[C@H](C)O',
         'O[C@H]([C@@H](O)C(O)=O)C(O)=O', 'O[C@@H]([C@@H](O)C(O)=O)C(O)=O', 'C[C@H]1CC[C@@H](C)CC1', 'C[C@H]1CC[C@H](C)CC1',
         'C/C=C/C=C\\C', 'C/C=C/C=C/C', 'F/C=C/C=C\\F', 'C/C=C/CC/C=C\\C', 'CC=[C@]=CC', '[13CH3]C', '[2H]C([2H])O',
-        'C[C@H](N)C(=O)O.C[C@@H](N)C(=O)O', 'OC1C(O)C(O)C(O)C(O)C1O', 'C1CC1.C1CCC1']
+        'C[C@H](N)C(=O)O.C[C@@H](N)C(=O)O', 'OC1C(O)C(O)C(O)C(O)C1O', 'C1CC1.C1CCC1',
+        'N1C=CN2C=CC=C12', 'C1=CC2=CC=CC2=C1', 'O=C1C=CNC=C1', 'C1=CN=C2N1C=CS2', 'c1ccc2c(c1)[nH]c1ccccc12', 'CC(=O)C.O.[Na+].[Cl-]']
 QUERIES = ['[C;D1]', 'C=O', 'c:c', '[N,O;D1]', 'C-C-C', '[C;r6]']
 
 
